@@ -507,6 +507,10 @@ impl Prop for C04 {
             // the model has no 64-entry capacity; only reachable with self-stacking layer configs
             return RunOut::skip("state-vector-full (64 entries)");
         }
+        if st.probes.max_held_layers > 10 {
+            // the layer stack consulted for transparent keys has 12 slots (10 held + default + first)
+            return RunOut::skip("more-than-10-held-layers (layer stack capacity)");
+        }
         let real: Vec<(u64, bool, String)> = st.trace.outs.iter().filter(|e| matches!(e.kind, OutKind::Press | OutKind::Release)).map(|e| (e.t, e.kind == OutKind::Press, e.key.clone())).collect();
         let other = st.trace.outs.iter().filter(|e| !matches!(e.kind, OutKind::Press | OutKind::Release)).count();
         o.sig = fnv(trace_sig(&st.trace.outs), case.cfg.as_bytes());
